@@ -305,4 +305,23 @@ CHECKS = {
         "level_text": "Seeded structural exploration of RPC x field x boundary value through the real in-process server with ground-truth census after every call and after restart.",
         "level_note": "trusted base: prost encode/decode of the harness, classification of items into valid / invalid / borderline, cold-tier census",
     },
+    "C12": {
+        "level": "exploration",
+        "design_ref": "DESIGN.md section 5/C12",
+        "engine": "E1 simlibc (clock, file mtimes, randomness) over real files",
+        "technique": "deterministic simulation: seeded engine histories with backups at quiescent points on a simulated clock and simulated file mtimes; every backup and point-in-time target restored into an empty directory and the real engine started from it; seeded single-byte damage / truncation of archives and metadata; retention over synthetic timelines at a simulated now",
+        "rule": "4 of 5 runs: history of 5-30 steps (8-60 thorough) over 3-8 ids: insert / delete / batch delete / metadata update, explicit snapshots, automatic snapshots (interval 2/3/5), WAL rotation limits 1 B / 300 B / 2 KiB / unbounded (compaction after snapshots), restarts, clock gaps {0,1,2,5,3600} s, "
+                "full backups and incremental backups on the latest backup / latest full / an arbitrary earlier backup; backend and tiered engines, fsync always. Expected collection of a backup = live census when it was taken. Judged: (1) every backup (first 8) restored into an empty directory, engine started (strict recovery), census == expected; "
+                "(2) point-in-time targets at every backup timestamp and +-1 s: census equals an eligible backup (rooted in a newest full backup <= target, chain <= target, not superseded by a strictly newer eligible child), refusal only when no full backup is old enough; "
+                "(3) a refused incremental ('No new WAL files') only when the live census still equals the parent's; (4) non-empty target without confirmation: refused and byte-identical; dry run: byte-identical; "
+                "(5) 24 (60 thorough) damages of a chain's archive or metadata file (1/6 truncations at 0 / len-1 / len/2 / random, else one bit flipped at a structural offset (first 48 bytes) or a random offset), restore with confirmation into a populated target: refused with the target byte-identical, or accepted with census == expected. "
+                "1 of 5 runs: 2-9 (2-14 thorough) synthetic backups (ages across minute/hour/day/week/month boundaries, chains and branches) x retention policy from {0,1,2,24} h x {0,1,7} d x {0,1,4} w x {0,1,12} m x min age {0,1,30} d at a simulated now: after prune_backups every retained backup still has its whole parent chain and nothing younger than the minimum age is gone. "
+                "evaluations = restores + prunes judged. distinct_nontrivial = distinct (backup kinds, collection sizes) digests.",
+        "assumptions": ["backups are taken while the engine is idle but open (fsync always), as the kyrodb_backup binary does against a running server's directory", "S3 upload/download and the CLI argument parsing are not exercised",
+                        "file mtimes are stamped from the simulated clock by the libc seam on every open-for-write / write / truncate below the data directory"],
+        "expected_probes": ["full_backups", "incremental_backups", "incremental_after_snapshot_and_compaction", "incremental_after_restart", "incremental_refused_no_new_wal", "pitr_restores_judged", "pitr_before_first_backup_refused", "guard_refused_non_empty_target", "damaged_backup_rejected", "damage_harmless_restore_equal", "retention_pruned_something"],
+        "tiers": {"quick": {"runs_per_worker": 1000000, "budget_s": 30}, "thorough": {"runs_per_worker": 10000000, "budget_s": 900}},
+        "level_text": "Seeded exploration of histories x backup points x restore targets with the real engine started on every restored directory, plus sampled single-byte damage and synthetic retention timelines.",
+        "level_note": "trusted base: live census as the expected collection (C02 shows restart == live), libc seam for clock and mtimes, byte-wise directory comparison",
+    },
 }
